@@ -719,6 +719,7 @@ func (s *Server) netServe() error {
 								var rwc io.ReadWriteCloser = conn
 								client.conn = rwc
 								if len(client.out) > 0 {
+									s.prewriteAOF()
 									client.conn.Write(client.out)
 									client.out = nil
 								}
@@ -771,15 +772,7 @@ func (s *Server) netServe() error {
 
 				// write to client
 				if len(client.out) > 0 {
-					if s.aofdirty.Load() {
-						func() {
-							// prewrite
-							s.mu.Lock()
-							defer s.mu.Unlock()
-							s.flushAOF(false)
-						}()
-						s.aofdirty.Store(false)
-					}
+					s.prewriteAOF()
 					conn.Write(client.out)
 					client.out = nil
 				}
@@ -804,6 +797,21 @@ func (s *Server) netServe() error {
 				}
 			}
 		}(conn)
+	}
+}
+
+// prewriteAOF hands all buffered aof data to the file before a reply is
+// written to a client. The dirty flag is cleared while holding the lock and
+// before flushing, so that a concurrent writer that appends after this flush
+// sets the flag again and performs its own flush before being acknowledged.
+func (s *Server) prewriteAOF() {
+	if s.aofdirty.Load() {
+		func() {
+			s.mu.Lock()
+			defer s.mu.Unlock()
+			s.aofdirty.Store(false)
+			s.flushAOF(false)
+		}()
 	}
 }
 
